@@ -985,8 +985,10 @@ func compareLogicXEQ(left r.Element, right r.Element) (bool, error) {
 			if len(vla) != len(vra) {
 				return false, nil
 			}
-			// cmp each item
-			for idx := range vla {
+			// cmp each item, in the key order of the left operand: when one entry is
+			// different and another one cannot be compared, ranging over the Go map would
+			// let the iteration order decide between 假 and an error
+			for _, idx := range vl.GetKeyOrder() {
 				// ensure the key exists on vr
 				vrr, ok := vra[idx]
 				if !ok {
